@@ -28,6 +28,11 @@ Proof.
   apply (list_eqb_eq N.eqb) in H10; [|intros; apply N.eqb_eq]. now subst.
 Qed.
 
+Lemma zone_of_refl n : zone_of n n = true.
+Proof.
+  unfold zone_of, lastn. rewrite Nat.sub_diag. cbn [skipn]. rewrite name_eqb_refl, Nat.leb_refl. reflexivity.
+Qed.
+
 (* ---------- small list lemmas ---------- *)
 
 Lemma enumerate_In {A} (l : list A) : forall i j x, In (j, x) (enumerate i l) -> In x l.
@@ -249,7 +254,14 @@ Section Sound.
       - apply sig_loop_some in El. destruct El as (s & kp & Hs & Hkp & Hsec' & p & Hv).
         assert (Hne : recs <> []). { intro E. unfold recs in *. rewrite E in Hr. inversion Hr. }
         destruct (verify_with_key_some _ _ _ _ _ Hv Hne) as [_ Hok].
-        eapply Auth_sig; [exact Hsec|exact Hr|exact Hs|apply Hp1; eauto|exact Hok].
+        eapply Auth_sig; [exact Hsec|exact Hr|exact Hs|apply Hp1; eauto|exact Hok|].
+        (* the key is a record of this very RRset: its owner is the owner of the RRset *)
+        unfold p1 in Hkp. apply in_map_iff in Hkp. destruct Hkp as (v & Ev & Hv0).
+        unfold p0 in Hv0. apply in_map_iff in Hv0. destruct Hv0 as (r0 & Er0 & Hr0). subst v. cbn [fst snd] in Ev.
+        assert (Ef0 : fst kp = r0). { destruct (is_secure _) in Ev; subst kp; reflexivity. }
+        rewrite Ef0. unfold recs, recs_of in Hr0. apply filter_In in Hr0. destruct Hr0 as [_ Hc].
+        apply andb_true_iff in Hc. destruct Hc as [Hc _]. apply key_eqb_eq in Hc. rewrite <- Hc.
+        unfold key_of. cbn [fst]. apply zone_of_refl.
       - destruct (forallb (fun v => is_secure (snd v)) p1) eqn:Ea; [|discriminate].
         destruct (Hfst r Hr) as (kp & Hin & Efst). subst r. apply Hp1; [exact Hin|].
         rewrite forallb_forall in Ea. now apply Ea.
@@ -297,16 +309,20 @@ Section Sound.
         destruct vs as [|v0 vs'] eqn:Evs; [discriminate|].
         apply select_ok_secure in H. destruct H as (i & s & rc & a & au & Hin & Elk & Hv).
         apply sched_sub in Hin. rewrite <- Evs in Hin. unfold vs in Hin.
-        apply filter_In in Hin. destruct Hin as [Hin _]. apply enumerate_In in Hin.
+        apply filter_In in Hin. destruct Hin as [Hin Hflt]. apply enumerate_In in Hin.
+        cbn [fst snd] in Hflt. rewrite !andb_true_iff in Hflt. destruct Hflt as [[_ Hzone] _].
         unfold verify_rrsig_with_keys in Hv.
         match type of Hv with (if ?c then _ else _) = _ => destruct c; [discriminate|] end.
         apply keys_loop_secure in Hv. destruct Hv as (kr & Hkr & Hv).
         apply cap_tags_In in Hkr. apply filter_In in Hkr. destruct Hkr as [Hkr Hisk]. cbn [fst] in Hisk.
         assert (Hne : recs_of k sec <> []). { intro E. rewrite E in Hr. inversion Hr. }
         destruct (verify_with_key_some _ _ _ _ _ Hv Hne) as [_ Hok].
-        eapply Auth_sig; [exact Hsec|exact Hr| |eapply lk_answers_auth; eauto|exact Hok].
+        eapply Auth_sig; [exact Hsec|exact Hr| |eapply lk_answers_auth; eauto|exact Hok|].
         + rewrite Esig. exact Hin.
         + unfold is_sig. unfold is_key in Hisk. destruct (rbody kr); try discriminate; reflexivity.
+        + (* the signer name checked by the filter is the owner of the key (SigOk) *)
+          inversion Hok as [kid pk alg tag tc labels ottl exp inc n Ekr Es Hl Hi He Hn Hne'].
+          unfold sig_signer in Hzone. rewrite Es in Hzone. exact Hzone.
     Qed.
 
     Lemma verify_rrset_secure : forall oq k idx r,
